@@ -2,7 +2,6 @@
 //! subject under test (real `LLFree` over raw buffers), snapshot/restore.
 
 use std::panic::{AssertUnwindSafe, catch_unwind};
-use std::sync::Mutex;
 
 use llfree::{
     Alloc, Class, Classing, Error, FrameId, HUGE_FRAMES, HUGE_ORDER, Init, LLFree, MetaData,
@@ -147,14 +146,13 @@ impl ClassingSpec {
 pub struct GuardBuf {
     map: *mut u8,
     map_len: usize,
+    slots: [usize; 2],
     pub ptr: *mut u8,
     pub len: usize,
 }
 unsafe impl Send for GuardBuf {}
 unsafe impl Sync for GuardBuf {}
 
-/// Registered guard ranges (for SIGSEGV attribution)
-pub static GUARD_RANGES: Mutex<Vec<(usize, usize)>> = Mutex::new(Vec::new());
 
 impl GuardBuf {
     pub fn new(len: usize, flush_end: bool) -> Self {
@@ -179,14 +177,13 @@ impl GuardBuf {
                 0
             );
         }
-        {
-            let mut g = GUARD_RANGES.lock().unwrap();
-            g.push((map as usize, map as usize + PAGE));
-            g.push((
+        let slots = [
+            crate::guard::register(map as usize, map as usize + PAGE),
+            crate::guard::register(
                 map as usize + (pages + 1) * PAGE,
                 map as usize + (pages + 2) * PAGE,
-            ));
-        }
+            ),
+        ];
         let ptr = if flush_end {
             // only 64-byte aligned ends are possible (buffer start must be 64 aligned)
             let end = unsafe { map.add((pages + 1) * PAGE) };
@@ -198,6 +195,7 @@ impl GuardBuf {
         Self {
             map,
             map_len,
+            slots,
             ptr,
             len,
         }
@@ -218,11 +216,8 @@ impl GuardBuf {
 }
 impl Drop for GuardBuf {
     fn drop(&mut self) {
-        {
-            let mut g = GUARD_RANGES.lock().unwrap();
-            let a = self.map as usize;
-            g.retain(|r| !(r.0 >= a && r.1 <= a + self.map_len));
-        }
+        crate::guard::unregister(self.slots[0]);
+        crate::guard::unregister(self.slots[1]);
         unsafe { libc::munmap(self.map.cast(), self.map_len) };
     }
 }
